@@ -540,6 +540,9 @@ func (al *ListLiteral) String() string {
 type Ident struct {
 	Name string
 	Line
+	// Local is set by the parser if the name denotes an argument or a local variable.
+	// Such a name hides a static function of the same name.
+	Local bool
 }
 
 func (i *Ident) Traverse(visitor Visitor) {
@@ -1209,7 +1212,7 @@ func (p *Parser[V]) parseLiteral(tokenizer *Tokenizer, idents Identifiers[V]) (A
 							Line:     t.Line,
 						}, nil
 					} else {
-						return &Ident{Name: name, Line: t.Line}, nil
+						return &Ident{Name: name, Line: t.Line, Local: true}, nil
 					}
 				}
 			}
